@@ -38,6 +38,7 @@
 //!                    the zoneinfo flavour opens the database through
 //!                    `TimeZoneDatabase::from_env()` with `TZDIR` set;
 //!   open-edge        constructors on missing/empty/invalid inputs, `none()`;
+//!   replaced-during-read  a replacement that lands inside a lookup (named pipe);
 //!   seq-bundled      the bundled back-end's global sorted cache.
 //!
 //! The fake clock is process-global, so histories are sharded over worker
@@ -1165,6 +1166,128 @@ fn seq_bundled(r: &Report) {
     r.count("bundled_lookups", lookups);
 }
 
+// ---------------------------------------------------------------------------
+// replaced-during-read: the one position of a "file replaced" event that the
+// histories above cannot express - *inside* a lookup, between the moment the
+// zone file's bytes are read and the moment the lookup returns. It is made
+// deterministic with a named pipe: the zone's path is a FIFO when the lookup
+// opens it; the harness's writer thread writes the old version's bytes, then
+// renames a regular file holding the NEW version over the path, and only then
+// closes the pipe, so the reader sees end-of-file strictly after the
+// replacement. Whatever the lookup cached (old data), once the TTL has passed
+// (or after reset) the changed file must be re-read.
+// ---------------------------------------------------------------------------
+fn replaced_during_read(r: &Report) {
+    use std::io::Write;
+    use std::os::unix::ffi::OsStrExt;
+    let sec = "replaced-during-read";
+    let root = PathBuf::from(format!("{}/rdr-{}", scratch_base(), std::process::id()));
+    let mut n = 0u64;
+    // (label, what happens between the racing lookup and the judged lookup, query spelling)
+    let variants: [(&str, &[&str], &str); 6] = [
+        ("ttl", &["advance:301"], "B"),
+        ("ttl-other-case", &["advance:301"], "b"),
+        ("ttl-twice", &["advance:301", "get", "advance:301"], "B"),
+        ("half-then-ttl", &["advance:151", "get", "advance:151"], "B"),
+        ("reset", &["reset"], "B"),
+        ("reset-then-ttl", &["reset", "get", "advance:301"], "B"),
+    ];
+    for (label, steps, query) in variants {
+        n += 1;
+        let _ = std::fs::remove_dir_all(&root);
+        std::fs::create_dir_all(&root).unwrap();
+        let old = SystemTime::UNIX_EPOCH + Duration::from_secs(1_600_000_000);
+        let newer = SystemTime::UNIX_EPOCH + Duration::from_secs(1_600_000_777);
+        Disk::write_file(&root.join("A/x"), &tiny_tzif(utoff_of(0, 1), &abbr_of(0, 1)), old);
+        let path = root.join("B");
+        Disk::write_file(&path, &tiny_tzif(utoff_of(1, 1), &abbr_of(1, 1)), old);
+        let case = format!("replaced-during-read {}", label);
+        let res = guard(|| {
+            let db = TimeZoneDatabase::from_dir(&root).map_err(|e| e.to_string())?;
+            // the name index now knows `B` (nothing is cached for it yet);
+            // turn the path into a FIFO
+            let fifo_tmp = root.join("B.fifo~");
+            let c = std::ffi::CString::new(fifo_tmp.as_os_str().as_bytes()).unwrap();
+            // SAFETY: plain libc call with a valid NUL-terminated path
+            if unsafe { libc::mkfifo(c.as_ptr(), 0o644) } != 0 {
+                return Err("mkfifo failed".to_string());
+            }
+            std::fs::rename(&fifo_tmp, &path).map_err(|e| e.to_string())?;
+            let new_tmp = root.join("B.new~");
+            std::fs::write(&new_tmp, tiny_tzif(utoff_of(1, 2), &abbr_of(1, 2))).unwrap();
+            std::fs::File::options().write(true).open(&new_tmp).unwrap().set_modified(newer).unwrap();
+            let (p2, n2) = (path.clone(), new_tmp.clone());
+            let writer = std::thread::spawn(move || -> Result<(), String> {
+                // opening a FIFO for writing blocks until the reader (the lookup) has opened it
+                let mut w = std::fs::File::options().write(true).open(&p2).map_err(|e| e.to_string())?;
+                w.write_all(&tiny_tzif(utoff_of(1, 1), &abbr_of(1, 1))).map_err(|e| e.to_string())?;
+                // the replacement lands while the lookup is still reading ...
+                std::fs::rename(&n2, &p2).map_err(|e| e.to_string())?;
+                // ... and only now does the reader see end-of-file
+                drop(w);
+                Ok(())
+            });
+            // safety net: if the lookup never opens the path, unblock the writer
+            let (p3, done) = (path.clone(), std::sync::Arc::new(std::sync::atomic::AtomicBool::new(false)));
+            let d2 = done.clone();
+            let net = std::thread::spawn(move || {
+                for _ in 0..200 {
+                    std::thread::sleep(Duration::from_millis(50));
+                    if d2.load(std::sync::atomic::Ordering::SeqCst) {
+                        return;
+                    }
+                }
+                // O_RDWR on a FIFO never blocks: lets a stuck writer proceed
+                let _ = std::fs::File::options().read(true).write(true).open(&p3);
+            });
+            let first = db.get("B").ok().map(|t| observe(&t));
+            writer.join().map_err(|_| "writer thread panicked".to_string())??;
+            done.store(true, std::sync::atomic::Ordering::SeqCst);
+            let _ = net.join();
+            for st in steps {
+                if let Some(secs) = st.strip_prefix("advance:") {
+                    jiff::__verif_advance_monotonic(Duration::from_secs(secs.parse().unwrap()));
+                } else if *st == "reset" {
+                    db.reset();
+                } else {
+                    let _ = db.get("B");
+                }
+            }
+            let last = db.get(query).ok().map(|t| observe(&t));
+            Ok::<_, String>((first, last))
+        });
+        let v1 = (utoff_of(1, 1), Some("B".to_string()));
+        let v2 = (utoff_of(1, 2), Some("B".to_string()));
+        match res {
+            Err(pn) => r.viol(sec, &format!("get/{}", panic_sig(&pn)), case, pn),
+            Ok(Err(e)) => {
+                // the machinery (mkfifo, rename, threads) failed: not a verdict
+                r.note(format!("replaced-during-read {}: machinery failed: {}", label, e));
+                r.count("replaced_during_read_machinery_failed", 1);
+            }
+            Ok(Ok((first, last))) => {
+                // the racing lookup itself may answer with either version
+                if first != Some(v1.clone()) && first != Some(v2.clone()) {
+                    r.viol(sec, "get/answer-not-admissible:lookup-racing-a-replacement", case.clone(), format!("{:?}", first));
+                }
+                if first == Some(v1) {
+                    r.count("replaced_during_read_old_version_served_by_racing_lookup", 1);
+                }
+                if last != Some(v2) {
+                    r.viol(sec, "get/answer-not-admissible:file-replaced-during-an-earlier-read", case, format!("racing lookup answered {:?}; lookup after {:?} answered {:?}; on disk since the replacement: version 2", first, steps, last));
+                }
+            }
+        }
+    }
+    let _ = std::fs::remove_dir_all(&root);
+    r.add_states(n);
+    r.add_transitions(n * 3);
+    r.add_validated(n * 2);
+    r.count("replaced_during_read_cases", n);
+    r.require(r.get_count("replaced_during_read_machinery_failed") == 0, "the named-pipe machinery of replaced-during-read worked");
+    r.require(r.get_count("replaced_during_read_old_version_served_by_racing_lookup") > 0, "the racing lookup did read the old bytes through the pipe");
+}
+
 fn main() {
     let args: Vec<String> = std::env::args().collect();
     let worker = args.iter().position(|a| a == "--worker").map(|i| args[i + 1].clone());
@@ -1219,6 +1342,7 @@ fn main() {
 
     // parent: in-process sections, then worker processes whose result files are merged
     r.section("open-edge", || open_edge(&r));
+    r.section("replaced-during-read", || replaced_during_read(&r));
     r.section("seq-bundled", || seq_bundled(&r));
 
     let nworkers = 16u64;
